@@ -208,6 +208,9 @@ pub enum Op {
     Disconnect { c: usize },
     /// full consistency audit: every partition read completely and compared, counters compared
     Audit,
+    /// clean restart with another encryption key (`off` = with encryption switched off), judged, then a
+    /// restart with the right key again
+    RestartKeyMismatch { off: bool },
     /// every kind of request on a fresh connection that never authenticated
     UnauthProbe { which: u32 },
     /// malformed frames on a fresh connection, derived from `seed`
@@ -274,6 +277,7 @@ impl Op {
             Op::Connect { .. } => "connect",
             Op::Disconnect { .. } => "disconnect",
             Op::Audit => "audit",
+            Op::RestartKeyMismatch { .. } => "restart_key_mismatch",
             Op::UnauthProbe { .. } => "unauth_probe",
             Op::Garbage { .. } => "garbage",
         }
